@@ -436,6 +436,7 @@ sut_daemon_tstamp(sut_inst_t s)
  *   FAULT k kind                the k-th checkpoint system call of the session fails (kind 1..3) or the process dies there (kind 0)
  *   TRACECALLS                  arm: log every checkpoint system call
  *   SHUT                        free_echsd() equivalent: final checkpoint
+ *   RESTART                     final checkpoint, drop all tasks, read the queues again (stop + start of the daemon)
  *   RELOAD                      echsd_inject_queues() on the spool
  *   VTODOS                      from now on copy every execution request handed to the executor into the trace
  *   DUMP                        print the task table
@@ -539,6 +540,20 @@ sut_daemon_session(const char *spooldir, const char *script, size_t len, sut_buf
 		} else if (!strncmp(line, "SHUT", 4)) {
 			chkpnt();
 			tprintf("SHUT-DONE\n");
+		} else if (!strncmp(line, "RESTART", 7)) {
+			/* orderly stop and start within the process: final checkpoint of everybody, all tasks dropped
+			 * (executions still running carry on unsupervised), queues read again */
+			for (size_t i = 0U; i < ztask_ht; i++) if (task_ht[i].oid) add_chkpnt(echs_task_owner(task_ht[i].t->t));
+			chkpnt();
+			for (size_t i = 0U; i < ztask_ht; i++) if (task_ht[i].oid) {
+				_task_t t = task_ht[i].t;
+				ev_periodic_stop(&theloop, &t->w);
+				for (size_t j = 0U; j < nchs; j++) if (chs[j]->data == t) chs[j]->data = NULL;
+				free_task(t);
+			}
+			echsd_inject_queues(&ctx, spooldir);
+			if (next_due() <= vnow) { loop_iteration(vnow + 0.0001); flush_spawn(); }
+			tprintf("RESTART t=%.4f\n", vnow);
 		} else if (!strncmp(line, "RELOAD", 6)) {
 			echsd_inject_queues(&ctx, spooldir);
 			tprintf("RELOAD-DONE\n");
